@@ -117,12 +117,12 @@ def tables(ctx: Ctx) -> None:
     res.notes["T_summary"] = f"{len(ids)} ids, {len(pr.messages)} messages, {len(pr.enums)} enums compared"
 
 
-def direction(ctx: Ctx, framing: str, api: tuple[int, int]) -> None:
+def direction(ctx: Ctx, framing: str, api: tuple[int, int], silent: bool = False) -> None:
     from vf.sim import apisweep
 
     res = ctx.res
     pr = protoparse.load_api()
-    o = apisweep.run(framing, api)
+    o = apisweep.run(framing, api, silent=silent)
     if o.get("error") or o.get("harness_errors"):
         res.inconclusive.append(f"api sweep: {o.get('error') or o['harness_errors'][0][-300:]}")
         return
@@ -130,7 +130,7 @@ def direction(ctx: Ctx, framing: str, api: tuple[int, int]) -> None:
     res.count("S/methods_swept", len(o["methods"]))
     res.count("S/methods_unswept", len(o["unswept"]))
     for name, m in o["methods"].items():
-        if m["outcome"] != "ok":
+        if m["outcome"] != "ok" and not silent:
             res.notes.setdefault("sweep_method_problems", []).append(f"{framing} {api} {name}: {m['outcome'][:120]}")
         for tname, tid in m["device_received"]:
             res.evaluations += 1
@@ -165,7 +165,7 @@ def direction(ctx: Ctx, framing: str, api: tuple[int, int]) -> None:
             res.violation(f"C13/sent-server-only-type/{tname}", f"the client sent {tname} (undefined or SOURCE_SERVER)", {"method": "<connection>", "framing": framing})
     if o["decode_errors"]:
         res.violation("C13/device-could-not-decode", str(o["decode_errors"][:2]), {"framing": framing})
-    if ctx.res.evaluations % 2 == 0:
+    if ctx.res.evaluations % 2 == 0 and "light_command" in o["methods"]:
         res.sample({"framing": framing, "api": api, "method": "light_command", "device_received": o["methods"]["light_command"]["device_received"],
                     "subscribe_states_subscribed": o["methods"]["subscribe_states"]["subscribed"][:5]})
 
@@ -270,12 +270,12 @@ def shard(ctx: Ctx) -> None:
     if ctx.shard == 0:
         tables(ctx)
         ctx.res.sample({"obligation": "positional-lookup", "id": 25, "expected": "SensorStateResponse"})
-    jobs = [("plain", (1, 10)), ("noise", (1, 10))]
+    jobs: list[tuple[Any, ...]] = [("plain", (1, 10), False), ("noise", (1, 10), False), ("plain", (1, 10), True), ("noise", (1, 10), True)]
     if ctx.thorough:
-        jobs += [("plain", (1, 0)), ("plain", (1, 2)), ("noise", (1, 4)), ("plain", (1, 9)), ("plain", (2, 0))]
-    for i, (framing, api) in enumerate(jobs):
+        jobs += [("plain", (1, 0), False), ("plain", (1, 2), False), ("noise", (1, 4), False), ("plain", (1, 9), False), ("plain", (2, 0), False), ("plain", (1, 2), True)]
+    for i, (framing, api, silent) in enumerate(jobs):
         if i % ctx.nshards == ctx.shard:
-            direction(ctx, framing, api)
+            direction(ctx, framing, api, silent)
 
 
 def replay(spec: dict[str, Any]) -> int:
